@@ -112,7 +112,7 @@ func cmdWitness(args []string) {
 	b := hx.NewBatch(*work)
 	b.WriteGoMod()
 	var src strings.Builder
-	src.WriteString("package p\n\nimport (\n\t\"errors\"\n\n\t\"" + b.Mod + "/ea\"\n\t\"" + b.Mod + "/eb\"\n)\n\ntype Inner struct{ V string }\ntype Inner2 struct{ V int }\ntype S1 struct{ I Inner }\ntype T1 struct{ I Inner2 }\ntype S2 struct{ J Inner }\ntype T2 struct{ J Inner2 }\ntype S3 struct{ K string }\ntype T3 struct{ K int }\ntype SE1 struct{ C ea.Col }\ntype TE1 struct{ C eb.Col }\ntype SE2 struct{ C ea.Col }\ntype TE2 struct{ C eb.Col }\ntype Wrap struct{ P *int }\ntype Wrap2 struct{ P int }\ntype SZ1 struct {\n\tQ *int\n\tW Wrap\n}\ntype TZ1 struct {\n\tQ int\n\tW Wrap2\n}\ntype SZ2 struct {\n\tQ *int\n\tW Wrap\n}\ntype TZ2 struct {\n\tQ int\n\tW Wrap2\n}\ntype In6 struct{ L []int }\ntype Cu struct{ Tags []int }\ntype CuD struct{ Tags []int }\ntype S6 struct {\n\tI In6\n\tC Cu\n}\ntype T6 struct {\n\tI In6\n\tC CuD\n}\ntype S7 struct {\n\tI In6\n\tC Cu\n}\ntype T7 struct {\n\tI In6\n\tC CuD\n}\ntype S4 struct{ V string }\ntype T4 struct{ V string }\ntype S5 struct{ V string }\ntype T5 struct{ V string }\n\nfunc Fn(v string, kx int) string { return v }\n\nfunc Atoi(s string) (int, error) { return 0, errors.New(\"boom\") }\n")
+	src.WriteString("package p\n\nimport (\n\t\"errors\"\n\n\t\"" + b.Mod + "/ea\"\n\t\"" + b.Mod + "/eb\"\n)\n\ntype Inner struct{ V string }\ntype Inner2 struct{ V int }\ntype S1 struct{ I Inner }\ntype T1 struct{ I Inner2 }\ntype S2 struct{ J Inner }\ntype T2 struct{ J Inner2 }\ntype S3 struct{ K string }\ntype T3 struct{ K int }\ntype SE1 struct{ C ea.Col }\ntype TE1 struct{ C eb.Col }\ntype SE2 struct{ C ea.Col }\ntype TE2 struct{ C eb.Col }\ntype Wrap struct{ P *int }\ntype Wrap2 struct{ P int }\ntype SZ1 struct {\n\tQ *int\n\tW Wrap\n}\ntype TZ1 struct {\n\tQ int\n\tW Wrap2\n}\ntype SZ2 struct {\n\tQ *int\n\tW Wrap\n}\ntype TZ2 struct {\n\tQ int\n\tW Wrap2\n}\ntype In6 struct{ L []int }\ntype Cu struct{ Tags []int }\ntype CuD struct{ Tags []int }\ntype S6 struct {\n\tI In6\n\tC Cu\n}\ntype T6 struct {\n\tI In6\n\tC CuD\n}\ntype S7 struct {\n\tI In6\n\tC Cu\n}\ntype T7 struct {\n\tI In6\n\tC CuD\n}\ntype In8 struct {\n\tA int\n\tB int\n}\ntype S8 struct{ I In8 }\ntype T8 struct{ I In8 }\ntype S4 struct{ V string }\ntype T4 struct{ V string }\ntype S5 struct{ V string }\ntype T5 struct{ V string }\n\nfunc Fn(v string, kx int) string { return v }\n\nfunc Atoi(s string) (int, error) { return 0, errors.New(\"boom\") }\n")
 	for i, s := range scens {
 		if s.Kind == "zeroflag" {
 			fmt.Fprintf(&src, "\n// goverter:converter\n%s// goverter:output:file ../gen/c%d.go\n// goverter:output:package %s/gen\ntype C%d interface {\n%s\tM1(source SZ1) TZ1\n%s\tM2(source SZ2) TZ2\n}\n",
@@ -126,6 +126,11 @@ func cmdWitness(args []string) {
 		if s.Kind == "enumoff" {
 			fmt.Fprintf(&src, "\n// goverter:converter\n// goverter:enum:unknown @ignore\n%s// goverter:output:file ../gen/c%d.go\n// goverter:output:package %s/gen\ntype C%d interface {\n%s\tM1(source SE1) TE1\n%s\tM2(source SE2) TE2\n}\n",
 				enumLine(s.PC, ""), i, b.Mod, i, enumLine(s.P1, "\t"), enumLine(s.P2, "\t"))
+			continue
+		}
+		if s.Kind == "skipdecl" {
+			fmt.Fprintf(&src, "\n// goverter:converter\n// goverter:output:file ../gen/c%d.go\n// goverter:output:package %s/gen\ntype C%d interface {\n%s\tM1(source S8) T8\n\t// goverter:ignore B\n\tM2(source In8) In8\n}\n",
+				i, b.Mod, i, skipLine(s.P1, "\t"))
 			continue
 		}
 		if s.Kind == "skipcopy" {
@@ -183,6 +188,15 @@ func cmdWitness(args []string) {
 				b.OK[2*i+m-1] = true
 				b.Reg[2*i+m-1] = fmt.Sprintf("reflect.ValueOf((&gen.C%dImpl{}).M%d)", i, m)
 				w.Write(map[string]any{"ins": []any{}, "lit": true, "calls": []any{map[string]any{"args": []any{stv(map[string]any{"k": "b", "tok": "#1"})}, "dump": []int{}}}})
+			} else if o.Gen == "ok" && scens[i].Kind == "skipdecl" {
+				if m == 1 {
+					b.WriteOutputs(i, o.Files)
+					b.OK[2*i] = true
+					b.Reg[2*i] = fmt.Sprintf("reflect.ValueOf((&gen.C%dImpl{}).M1)", i)
+					w.Write(map[string]any{"ins": []any{}, "lit": true, "calls": []any{map[string]any{"args": []any{stv(stv(lit(5), lit(6)))}, "dump": []int{}}}})
+				} else {
+					w.Write(map[string]any{"ins": []any{}})
+				}
 			} else if o.Gen == "ok" && scens[i].Kind == "skipcopy" {
 				if m == 1 {
 					b.WriteOutputs(i, o.Files)
@@ -221,8 +235,20 @@ func cmdWitness(args []string) {
 	msg := map[int]string{}
 	alias := map[int][]bool{}
 	byName, seenNum := map[int]bool{}, map[int]bool{}
+	declB := map[int]int{}
 	for _, r := range recs {
 		id := int(r["id"].(float64))
+		if id%2 == 0 && id/2 < len(scens) && scens[id/2].Kind == "skipdecl" {
+			declB[id/2] = -1
+			if outs, ok := r["outs"].([]any); ok && len(outs) > 0 {
+				if st, ok := outs[0].(map[string]any); ok && st["k"] == "st" {
+					if in, ok := st["fs"].([]any)[0].(map[string]any); ok && in["k"] == "st" {
+						declB[id/2] = litOf(in["fs"].([]any)[1])
+					}
+				}
+			}
+			continue
+		}
 		msg[id], _ = r["err"].(string)
 		// enumoff witnesses: the number Red (1) arrives as
 		if outs, ok := r["outs"].([]any); ok && len(outs) > 0 {
@@ -266,7 +292,7 @@ func cmdWitness(args []string) {
 			msg[2*i+1] = "" // M2 of a direct program is only there to keep the registry shape; it is not judged
 		}
 		obs.Write(map[string]any{"id": i, "kind": scens[i].Kind, "pc": scens[i].PC, "p1": scens[i].P1, "p2": scens[i].P2, "gen": o.Gen, "why": why, "compiles": !badc,
-			"alias": aliasOf(alias, i), "byname": []bool{byName[2*i], byName[2*i+1]}, "numseen": []bool{seenNum[2*i], seenNum[2*i+1]}, "chain1": chainOf(msg[2*i]), "chain2": chainOf(msg[2*i+1]), "msg1": msg[2*i], "imports": imps, "decls": decls, "diag": firstLine(o.Why)})
+			"alias": aliasOf(alias, i), "byname": []bool{byName[2*i], byName[2*i+1]}, "numseen": []bool{seenNum[2*i], seenNum[2*i+1]}, "chain1": chainOf(msg[2*i]), "chain2": chainOf(msg[2*i+1]), "msg1": msg[2*i], "declB": declB[i], "imports": imps, "decls": decls, "diag": firstLine(o.Why)})
 	}
 	js, _ := json.Marshal(map[string]any{"scenarios": len(scens), "executions": len(recs), "gen_s": b.Timing["gen"].Seconds(), "build_s": b.Timing["build"].Seconds()})
 	fmt.Println("HARNESS-SUMMARY " + string(js))
